@@ -385,16 +385,20 @@ fn convert_case(edges: &[(String, String)], u: bool, colors: Option<usize>) -> V
 fn check_convert(ctx: &mut Ctx, edges: &[(String, String)], u: bool, dot: bool) {
     // the file as a text editor leaves it (newline after every line) and without a newline
     // after its last line
-    check_convert_layout(ctx, edges, u, dot, false);
+    check_convert_layout(ctx, edges, u, dot, 0);
     if !edges.is_empty() {
-        check_convert_layout(ctx, edges, u, dot, true);
+        check_convert_layout(ctx, edges, u, dot, 1);
+        // a UTF-8 byte-order mark in front (what spreadsheet exports write)
+        check_convert_layout(ctx, edges, u, dot, 2);
     }
 }
 
-fn check_convert_layout(ctx: &mut Ctx, edges: &[(String, String)], u: bool, dot: bool, no_final_newline: bool) {
+fn check_convert_layout(ctx: &mut Ctx, edges: &[(String, String)], u: bool, dot: bool, layout: usize) {
+    let no_final_newline = layout == 1;
     ctx.begin_case(|| convert_case(edges, u, None));
     ctx.count("evaluations", 1);
     let csv: String = if no_final_newline { edges.iter().map(|(a, b)| format!("{a},{b}")).collect::<Vec<_>>().join("\n") } else { edges.iter().map(|(a, b)| format!("{a},{b}\n")).collect() };
+    let csv = if layout == 2 { format!("\u{feff}{csv}") } else { csv };
     let f = scratch_file("graph.csv", csv.as_bytes());
     let mut args = vec!["--convert".to_string(), f.display().to_string()];
     if u {
@@ -553,7 +557,7 @@ fn convert_sweep(ctx: &mut Ctx) {
     // colourings: every loop-free undirected graph on <= 4 vertices as an edge list
     // two name families: plain names, and names that are prefixes of one another (the
     // derived names <v>_c<k> then sort differently from the original names)
-    for v4 in [["p", "q", "r", "s"], ["v1", "v10", "v1A", "w"]] {
+    for v4 in [["p", "q", "r", "s"], ["v1", "v10", "v1A", "w"], ["a_b", "c", "a", "b_c"]] {
         let mut und = vec![];
         for i in 0..4 {
             for j in (i + 1)..4 {
@@ -576,17 +580,18 @@ fn convert_sweep(ctx: &mut Ctx) {
 /// colours, longer edge lists
 fn convert_sweep_large(ctx: &mut Ctx) {
     let mut idx = 0u64;
-    let v5 = ["v1", "v10", "v2", "v11", "w"];
+    let th = ctx.thorough();
+    // second family: names whose concatenations with `_` collide (a_b + c = a + b_c); sparse graphs only
+    for (fam, v5) in [["v1", "v10", "v2", "v11", "w"], ["a_b", "c", "a", "b_c", "x"]].into_iter().enumerate() {
     let mut und = vec![];
     for i in 0..5 {
         for j in (i + 1)..5 {
             und.push((v5[i].to_string(), v5[j].to_string()));
         }
     }
-    let th = ctx.thorough();
     for mask in 1..(1usize << und.len()) {
-        // quick: every third graph; thorough: all 1023
-        if !th && mask % 3 != 0 {
+        // quick: every third graph; thorough: all 1023 (second family: graphs with <= 4 edges)
+        if fam == 0 && !th && mask % 3 != 0 || fam == 1 && mask.count_ones() > 4 {
             continue;
         }
         let edges: Vec<(String, String)> = (0..und.len()).filter(|i| mask & (1 << i) != 0).map(|i| if (mask + i) % 3 == 0 { (und[i].1.clone(), und[i].0.clone()) } else { und[i].clone() }).collect();
@@ -601,6 +606,7 @@ fn convert_sweep_large(ctx: &mut Ctx) {
             // the same lists through --convert (4..10 edges, five vertices)
             check_convert(ctx, &edges, mask % 2 == 0, mask % 4 < 2);
         }
+    }
     }
     // eight distinct edges followed by the reverse of each of them in turn (and of all of them)
     {
